@@ -90,8 +90,90 @@ theorem scenario_leaks_iff (c : FmtCfg) (s : Scenario) :
     cases x with
     | anyOptions => exact ⟨hopt.mp hl, h1, hx⟩
     | label => simp [LogSite.leaky] at hl
+    | ffiLabel => simp [LogSite.leaky] at hl
   · rintro ⟨h0, h1, h2⟩
     exact ⟨h1, .anyOptions, h2, hopt.mpr h0⟩
+
+/-! ### error text -/
+
+theorem head_secret (l : ErrLink) (tok : Tok) (ht : tok ∈ l.head) (hs : tok.isSecret = true) :
+    ∃ m, l.message = some m ∧ tok ∈ m := by
+  unfold ErrLink.head at ht
+  cases hm : l.message with
+  | none =>
+    simp only [hm, Option.getD_none, List.mem_singleton] at ht
+    subst ht; simp [Tok.isSecret] at hs
+  | some m =>
+    simp only [hm, Option.getD_some] at ht
+    exact ⟨m, rfl, ht⟩
+
+theorem mem_chainMessages {c : List ErrLink} {l : ErrLink} {m : List Tok} {tok : Tok}
+    (hl : l ∈ c) (hm : l.message = some m) (ht : tok ∈ m) : tok ∈ chainMessages c := by
+  simp only [chainMessages, List.mem_flatMap]
+  exact ⟨l, hl, by simp [hm, ht]⟩
+
+theorem chainMessages_cons (l : ErrLink) (c : List ErrLink) (tok : Tok) (h : tok ∈ chainMessages c) :
+    tok ∈ chainMessages (l :: c) := by
+  simp only [chainMessages, List.flatMap_cons, List.mem_append] at h ⊢
+  exact Or.inr h
+
+theorem errDisplay_secret (c : List ErrLink) (tok : Tok) (ht : tok ∈ errDisplay c) (hs : tok.isSecret = true) :
+    tok ∈ chainMessages c := by
+  induction c with
+  | nil => simp [errDisplay] at ht
+  | cons l rest ih =>
+    cases rest with
+    | nil =>
+      simp only [errDisplay] at ht
+      obtain ⟨m, hm, htm⟩ := head_secret l tok ht hs
+      exact mem_chainMessages (List.mem_cons_self ..) hm htm
+    | cons l' rest' =>
+      simp only [errDisplay, List.mem_append, List.mem_singleton] at ht
+      rcases ht with (ht | ht) | ht
+      · obtain ⟨m, hm, htm⟩ := head_secret l tok ht hs
+        exact mem_chainMessages (List.mem_cons_self ..) hm htm
+      · subst ht; simp [Tok.isSecret] at hs
+      · exact chainMessages_cons _ _ _ (ih ht)
+
+theorem errDebug_secret (c : List ErrLink) (tok : Tok) (ht : tok ∈ errDebug c) (hs : tok.isSecret = true) :
+    tok ∈ chainMessages c := by
+  induction c with
+  | nil =>
+    simp only [errDebug, List.mem_singleton] at ht
+    subst ht; simp [Tok.isSecret] at hs
+  | cons l rest ih =>
+    simp only [errDebug, List.mem_append, List.mem_singleton] at ht
+    rcases ht with (((ht | ht) | ht) | ht) | ht
+    · subst ht; simp [Tok.isSecret] at hs
+    · exact chainMessages_cons _ _ _ (ih ht)
+    · subst ht; simp [Tok.isSecret] at hs
+    · cases hm : l.message with
+      | none =>
+        simp only [hm, Option.getD_none, List.mem_singleton] at ht
+        subst ht; simp [Tok.isSecret] at hs
+      | some m =>
+        simp only [hm, Option.getD_some] at ht
+        exact mem_chainMessages (List.mem_cons_self ..) hm ht
+    · subst ht; simp [Tok.isSecret] at hs
+
+theorem errTexts_secret (c : List ErrLink) (t : List Tok) (hT : t ∈ errTexts c) (tok : Tok) (ht : tok ∈ t)
+    (hs : tok.isSecret = true) : tok ∈ chainMessages c := by
+  induction c with
+  | nil => simp [errTexts] at hT
+  | cons l rest ih =>
+    simp only [errTexts, List.mem_cons] at hT
+    rcases hT with rfl | rfl | hT
+    · exact errDisplay_secret _ tok ht hs
+    · exact errDebug_secret _ tok ht hs
+    · exact chainMessages_cons _ _ _ (ih hT)
+
+theorem errJson_secret (c : List ErrLink) (tok : Tok) (ht : tok ∈ errJson c) (hs : tok.isSecret = true) :
+    tok ∈ chainMessages c := by
+  simp only [errJson, List.mem_append, List.mem_singleton] at ht
+  rcases ht with (ht | ht) | ht
+  · subst ht; simp [Tok.isSecret] at hs
+  · exact errDisplay_secret _ tok ht hs
+  · subst ht; simp [Tok.isSecret] at hs
 
 theorem key_drop_wipes (k : KeyBlock) : ∀ c ∈ (dropKey k).cells, c = 0 := by
   intro c hc
